@@ -308,7 +308,13 @@ func (fr *Frame) applySpec(spec *FuncSpec, key string, sig *types.Signature, arg
 				fc.eng.stale(spec, Clause{Text: m.Text, Src: spec.Src}, fmt.Errorf("modifies x[..] needs a slice"))
 				continue
 			}
-			fr.havocSliceContents(st, old, *v, sl.Elem(), g)
+			if m.Cap {
+				// widen the window to the capacity
+				w := SV{t: mkSlice(sarr(v.t), soff(v.t), scap(v.t), scap(v.t)), typ: v.typ}
+				fr.havocSliceContents(st, old, w, sl.Elem(), g)
+			} else {
+				fr.havocSliceContents(st, old, *v, sl.Elem(), g)
+			}
 		default:
 			env.cur = old
 			a, t, ok := env.evalAddrSafe(m.E)
